@@ -31,6 +31,7 @@ type spec struct {
 	FullLog   bool              `json:"full_log"`
 	KeepScen  bool              `json:"keep_scenario"`
 	WatchdogS int               `json:"watchdog_s"`
+	GenOnly   bool              `json:"gen_only"` // gen mode: only generate the scenarios (the orchestrator recovers the scenario of a run that killed its worker)
 	EnumFrom  int               `json:"enum_from"`
 	EnumStep  int               `json:"enum_step"`
 }
@@ -107,6 +108,13 @@ func TestWorker(t *testing.T) {
 	}
 
 	for i, j := range jobs {
+		if sp.GenOnly {
+			line, _ := json.Marshal(&core.Result{Property: p.ID, Seed: j.seed, Verdict: "generated", Scenario: j.scen})
+			w.Write(line)
+			w.WriteByte('\n')
+			w.Flush()
+			continue
+		}
 		res := runOne(t, p, &sp, j.seed, j.scen, i)
 		if sp.KeepScen || res.Verdict != core.OK {
 			res.Scenario = j.scen
